@@ -57,6 +57,12 @@ fn gen_shape(rng: &mut Rng) -> ModuleShape {
 }
 
 /// Generate the text of one module that may import the modules in `others` (name, shape).
+const DOC_WORDS: &[&str] = &["A", "round", "solid", "shape", "thing", "makes", "takes", "gives", "small", "large", "value", "of", "the"];
+
+fn doc_words(rng: &mut Rng) -> String {
+    (0..rng.range(1, 4)).map(|_| *rng.pick(DOC_WORDS)).collect::<Vec<_>>().join(" ")
+}
+
 pub fn gen_module(rng: &mut Rng, others: &[(String, ModuleShape)]) -> (String, ModuleShape) {
     let shape = gen_shape(rng);
     let mut out = String::new();
@@ -114,8 +120,14 @@ pub fn gen_module(rng: &mut Rng, others: &[(String, ModuleShape)]) -> (String, M
     }
     for (t, vs) in &shape.types {
         let vis = if rng.chance(2, 3) { "pub " } else { "" };
+        if rng.chance(1, 3) {
+            out += &format!("/// {}\n", doc_words(rng));
+        }
         out += &format!("{vis}type {t} {{\n");
         for (v, fs) in vs {
+            if rng.chance(1, 3) {
+                out += &format!("  /// {}\n", doc_words(rng));
+            }
             if fs.is_empty() {
                 out += &format!("  {v}\n");
             } else {
@@ -153,6 +165,9 @@ pub fn gen_module(rng: &mut Rng, others: &[(String, ModuleShape)]) -> (String, M
             .collect::<Vec<_>>()
             .join(", ");
         let ret = if rng.chance(1, 3) { " -> Int" } else { "" };
+        if rng.chance(1, 4) {
+            out += &format!("/// {}\n", doc_words(rng));
+        }
         out += &format!("{vis}fn {f}({params}){ret} {{\n");
         let nstmts = rng.range(1, 4);
         for s in 0..nstmts {
@@ -308,7 +323,23 @@ const SNIPPETS: &[&str] = &[
 /// Apply one random textual edit. Returns (new text, kind tag).
 pub fn mutate(rng: &mut Rng, text: &str) -> (String, &'static str) {
     let mut s = text.to_string();
-    match rng.below(11) {
+    match rng.below(12) {
+        11 => {
+            // rewrite a doc comment without moving anything: same length, other words
+            let docs: Vec<(usize, usize)> = s
+                .match_indices("/// ")
+                .map(|(i, _)| (i + 4, s[i..].find('\n').map_or(s.len(), |e| i + e)))
+                .filter(|(a, b)| b > a)
+                .collect();
+            if docs.is_empty() {
+                return (s, "edit.none");
+            }
+            let (a, b) = *rng.pick(&docs);
+            let old: Vec<char> = s[a..b].chars().collect();
+            let new: String = old.iter().map(|c| if c.is_ascii_lowercase() { (((*c as u8 - b'a' + 7) % 26) + b'a') as char } else { *c }).collect();
+            s.replace_range(a..b, &new);
+            (s, "edit.doc_rewrite_same_length")
+        }
         9 | 10 => {
             // rename something the module DECLARES (a type, a constructor, a function, a
             // constant) wherever it occurs in the file: what an editor's rename does, and what
